@@ -5,7 +5,7 @@ import json, os, sys
 V = os.path.dirname(os.path.dirname(os.path.abspath(__file__)))
 sys.path.insert(0, os.path.join(V, "sa"))
 os.environ["VERIF_NO_INLINE"] = "1"
-from engine import facts
+from engine import facts, inline
 paths = set()
 sigs = {}
 adts = {}
@@ -16,7 +16,7 @@ for cfg in ("A", "B", "C", "D", "R", "X"):
     for p, f in prog.fns.items():
         if f.get("kind") != "Closure" and "{closure" not in p:
             callees = sorted({(b["term"].get("callee") or "?") for b in f["blocks"] if b["term"]["k"] == "call"})
-            sigs.setdefault(p, {"sig": f.get("sig"), "argc": f.get("argc"), "crate": f.get("crate"), "nblocks": len(f["blocks"]), "callees": callees})
+            sigs.setdefault(p, {"sig": f.get("sig"), "argc": f.get("argc"), "crate": f.get("crate"), "nblocks": len(f["blocks"]), "callees": callees, "fp": inline.fingerprint(f)})
     for a, d in prog.adts.items():
         if d.get("variants") and a.split("::")[0] in prog.crates:
             adts.setdefault(a, [[[fl["name"], fl["ty"]] for fl in v["fields"]] for v in d["variants"]])
